@@ -71,6 +71,8 @@ type symtabObs struct {
 	ViaString  tableObs `json:"viastring"`
 	ViaWriteTo tableObs `json:"viawriteto"`
 	ViaBinary  tableObs `json:"viabinary"`
+	ViaBogus    tableObs `json:"viabogus"`
+	ViaBogusBin tableObs `json:"viabogusbin"`
 }
 
 // rereadTable reads doc (a serialised table followed by one value) and returns the table in force at the value.
@@ -127,6 +129,31 @@ func tableRoundTrip(c symtabCase, lt ion.SymbolTable, o *symtabObs) {
 	}
 	if err != nil {
 		o.RT = "binary writer with this table: " + err.Error()
+		return
+	}
+	// the same table as a Reader WITHOUT the imports in its catalog holds it (every import a placeholder of max_id
+	// slots), written out again and read back: the placeholders keep their slots
+	empty := ion.NewCatalog()
+	r := ion.NewReaderCat(bytes.NewReader([]byte(lt.String()+"\n0")), empty)
+	if !r.Next() {
+		o.RT = fmt.Sprintf("String() read without the imports: %v", r.Err())
+		return
+	}
+	held := r.SymbolTable()
+	if o.ViaBogus, err = rereadTable([]byte(held.String()+"\n0"), empty); err != nil {
+		o.RT = "String() of a table with missing imports: " + err.Error()
+		return
+	}
+	var b2 bytes.Buffer
+	bw2 := ion.NewBinaryWriterLST(&b2, held)
+	if err = bw2.WriteInt(0); err == nil {
+		err = bw2.Finish()
+	}
+	if err == nil {
+		o.ViaBogusBin, err = rereadTable(b2.Bytes(), empty)
+	}
+	if err != nil {
+		o.RT = "binary writer with a table with missing imports: " + err.Error()
 	}
 }
 
@@ -187,7 +214,7 @@ func cmdSymtab(in *bufio.Scanner, out *bufio.Writer) error {
 		idx++
 		o := symtabObs{Idx: idx, Adds: []addObs{}, Snaps: []tableObs{}}
 		empty := tableObs{ByID: []byIDObs{}, ByName: []byNameObs{}, BySid: []bySidObs{}, Symbols: []Bytes{}, Imports: []impObs{}}
-		o.ViaString, o.ViaWriteTo, o.ViaBinary = empty, empty, empty
+		o.ViaString, o.ViaWriteTo, o.ViaBinary, o.ViaBogus, o.ViaBogusBin = empty, empty, empty, empty, empty
 		err, pan, site := safely(func() error {
 			imps := make([]ion.SharedSymbolTable, len(c.Imports))
 			for i, s := range c.Imports {
